@@ -99,7 +99,7 @@ def apply(fc):
         let ghost out0 = %(out)s@;
         let ghost idx = %(off)s as int / 6;''' % dict(off=off, byte=byte, out=out, bc=bc, bits=bits), kind='loop')
         fc.insert_re('unarmor', r'let mut %s = 0;' % off, 'proof { lemma_zero_packed(%s@, data@); }\n    ' % out)
-        fc.insert_re('unarmor', r'if fill_bits != 0 && %s != 0 \{' % bc, 'let ghost out_pre = %s@;\n    ' % out)
+        fc.insert_re('unarmor', r'if fill_bits != 0\b', 'let ghost out_pre = %s@;\n    ' % out)
         fc.insert_re('unarmor', r'Ok\(%s\)' % out, 'proof { if fill_bits != 0 && %s != 0 { lemma_unarmor_mask_imp(out_pre, %s@, data@, fill_bits as int); } }\n    ' % (bc, out))
         fc.insert_re('unarmor', r'%s \+= 6;' % off, 'proof { lemma_unarmor_step_imp(out0, %s@, data@, idx, sv(*%s)); }\n        ' % (out, byte))
     else:
